@@ -55,6 +55,27 @@ def slice_cases(rng, _n):
                 c.meanings = "(meanings %s)" % " ".join("(v %s (int %d))" % (hexs(str(i + 1)), i + 1) for i in range(n))
                 t3.finish_case(c, "", "Vec<i32>", "vec![%s]" % ", ".join("7" for _ in range(length)), "(seq %s)" % " ".join("(int 7)" for _ in range(length)), pat)
                 cases.append(c)
+    # the same slice patterns reaching the macro THROUGH THE CALLER'S OWN macro_rules! helper, each element forwarded as an `expr` /
+    # `tt` fragment (an `expr` fragment arrives in an invisible group; today a forwarded `..` is then rejected by rustc - should a tree
+    # accept it, what the label says must still agree with the pattern: seed C19-12)
+    helper = ("macro_rules! items_e { ($v:expr, $($p:expr),*) => { assert_struct!($v, [$($p),*]) } }\n"
+              "macro_rules! items_t { ($v:expr, $($p:tt),*) => { assert_struct!($v, [$($p),*]) } }\n")
+    for frag in ("e", "t"):
+        for n in range(1, 4):
+            for rest_at in [None] + list(range(n + 1)):
+                parts = ["%d" % (i + 1) for i in range(n)]
+                if rest_at is not None:
+                    parts.insert(rest_at, "..")
+                for length in (0, 1, 2, 5):
+                    c = t3.Case()
+                    c.id = k
+                    k += 1
+                    c.n, c.rest, c.length = n, rest_at is not None, length
+                    c.forms = {"slice": 1, "through-macro_rules-" + ("expr" if frag == "e" else "tt"): 1}
+                    c.meanings = "(meanings %s)" % " ".join("(v %s (int %d))" % (hexs(str(i + 1)), i + 1) for i in range(n))
+                    t3.finish_case(c, helper, "Vec<i32>", "vec![%s]" % ", ".join("7" for _ in range(length)), "(seq %s)" % " ".join("(int 7)" for _ in range(length)), "[%s]" % ", ".join(parts))
+                    c.custom_invocation = "items_%s!(v, %s)" % (frag, ", ".join(parts))
+                    cases.append(c)
     for (pat, n, rest, val, sexp, ty) in [
         ("#(1, 2)", 2, False, "vec![7, 7, 7]", "(seq (int 7) (int 7) (int 7))", "Vec<i32>"),
         ("#(1, 2, ..)", 2, True, "vec![7]", "(seq (int 7))", "Vec<i32>"),
